@@ -39,7 +39,7 @@ def run(ctx):
     # (TLC's coverage mode runs out of memory on the recursive operators of Persist.tla; vacuity is read off the dump instead)
     mc = tlc.run("Persist_MC", persist.mc_config(max_areas), ctx.workdir, dump=True, timeout=3000, heap="3g")
     ctx.model(mc, f"Persist_MC pipeline-ordered RecordSM states over 3 universes, <= {max_areas} areas")
-    cases = persist.mc_cases(mc, ctx.seed)
+    cases = persist.mc_cases(mc, 0)   # enumerated cases are identified by their input: fixed sequence seed
     missing = {"areas", "cands", "regions", "done"} - {case["phase"] for case in cases}
     if missing:
         raise MachineryError(f"vacuous model run: no state in phase {sorted(missing)}")
